@@ -59,7 +59,12 @@ def texts(rng, tier):
     out = ["select a->>'b'", 'select from t', 'select a b c', 'select 1 +', 'select * from t where', 'select (1',
            '  select 1 )', 'select a\n  from t\n where\n x y z', 'select /* c */ a b c', 'select a -- c\n b c',
            "select 'a' 'b'", "select 'a' 'it''s'", 'select 1 @v', 'select a b "q\\"r"', 'create model', 'select a from t join', 'select * from t limit x', 'x', ')', 'select 1 2',
-           'select a\n\n\n, from t', 'select @v 5', 'select a from t where a = ', "select 'x\ny' z w"]
+           'select a\n\n\n, from t', 'select @v 5', 'select a from t where a = ', "select 'x\ny' z w",
+           # a keyword left out after the first word of a command: the suggestions are the keywords that may follow
+           'create table if x', 'create table if x (a int)', 'drop e', 'drop table if t', 'create e from h', 'create m predict x', 'create t (a int)',
+           'show x', 'alter x', 'insert x', 'start x', 'create or t', 'create knowledge x', 'select * from t group x', 'select * from t order x',
+           'select a from t where a is x', 'select a from t where a not x', 'select a from t where b x null', 'create view if x', 'describe x y z',
+           'select * from a join b on x = y left z', 'update t x', 'delete t', 'use', 'create database d with x', 'create ml_engine', 'drop ml_engine if x']
     hs = [s for s in harvest()[D] if len(s) < 300]
     rng.shuffle(hs)
     n = 250 if tier == 'quick' else 4000
@@ -269,8 +274,14 @@ def run(tier, seed, replay=None):
             for s_ in sugg:
                 if s_ in special:
                     continue            # placeholders ([identifier] ...) are not concrete keywords or symbols
-                tnum = inv.get(s_)
-                st.append(f'{tnum if tnum else 2}%positive')      # unknown display string -> the error symbol: never acceptable
+                # what the user would type: the suggested text is read by the real lexer; it has to be ONE token, and that token
+                # (not the one the message builder had in mind) is what must be acceptable at the error position
+                try:
+                    lt = list(L().tokenize(s_))
+                except Exception:
+                    lt = []
+                tnum = num.get(lt[0].type) if len(lt) == 1 else None
+                st.append(f'{tnum if tnum else 2}%positive')      # not one token -> the error symbol: never acceptable
             body.append(f' ([{tys}], [{lx}], {nl(shown or "")}, {max(k, 0)}%nat, {n}%nat, [{"; ".join(st)}])')
         ls.append(';\n'.join(body))
         ls += ['].', 'Eval vm_compute in map judge cases.']
@@ -314,6 +325,21 @@ def run(tier, seed, replay=None):
                                  'what': 'the caret segment does not cover exactly the first token the grammar cannot accept'})
             if b == 'false':
                 nsug += 1
+                # a suggestion that is not even one token of the language is a defect of its own (the text shown is not a keyword)
+                not_tokens = []
+                for s_ in sugg:
+                    if s_ in special:
+                        continue
+                    try:
+                        if len(list(L().tokenize(s_))) != 1:
+                            not_tokens.append(s_)
+                    except Exception:
+                        not_tokens.append(s_)
+                if not_tokens:
+                    if len(R.violations) < 6:
+                        R.violation({'text': txt, 'message': msg, 'suggestions': sugg, 'not_a_token': not_tokens,
+                                     'what': 'a suggested keyword/symbol is not a token of the language: typed as shown it is not what the parser expects'})
+                    continue
                 fd = [f for f in findings if f['classifier'].get('kind') == 'suggestion' and
                       f['classifier']['when'] == ('eof' if eof else ('token_single' if len(sugg) == 1 else 'token'))]
                 if fd:
